@@ -1,5 +1,6 @@
 import Xp.Proofs.C01PT
 import Xp.Proofs.C01Quiet
+import Xp.Proofs.C01QuietPT
 /-
 C01 — composed resources are never leaked or duplicated, whatever fails mid-reconcile.
 
@@ -83,12 +84,23 @@ every desired resource has its object with the desired content under the XR's co
 field manager, and spec.resourceRefs is exactly the sorted list of those objects — a
 fault-free reconcile, in whatever order it iterates its maps, succeeds and changes no
 object: the store it leaves is identical (references, objects, the XR's resourceVersion).
-(The P&T composer's quiescence is checked on the real code by the resourceVersion monitor
-only.) -/
+(The P&T composer: `quiescent_pt` below.) -/
 theorem quiescent (s : St) (names : List Named) (h : Settled s names) (ch : Choices) (hc : ChOK ch)
     (hv : ch.ver = s.refsVer) :
     run sem Plan.allOk 0 (reconcile (.fn (fun _ => .desired (names.map (·.d))) ch)) s = (s, some .success) :=
   quiescent_fn h ch hc hv
+
+/-- **Quiescence** (patch-and-transform templates). Once the composed state matches the
+templates — every template has its object (right kind, the referenced name, annotated with
+the template name, controlled by the XR, content as rendered) and spec.resourceRefs is exactly
+the list of those objects in template order, in the API version the composition emits — a
+fault-free reconcile succeeds and changes no object: the store it leaves is identical
+(references, objects, the XR's resourceVersion), whatever names `fresh` the generator would
+propose (none is probed or consumed). -/
+theorem quiescent_pt (s : St) (tmpl : List Desired) (names : List String) (h : SettledPT s tmpl names)
+    (fresh : List String) (ver : String) (hv : s.refs = [] ∨ ver = s.refsVer) :
+    run sem Plan.allOk 0 (reconcile (.pt tmpl fresh ver)) s = (s, some .success) :=
+  QuietPT.quiescent_pt h fresh ver hv
 
 /-! ### non-vacuity: the hypotheses are met by non-trivial states and inputs -/
 
@@ -109,6 +121,29 @@ example : Settled settledStore [⟨⟨"a", "KA", 1, true⟩, "xr-abc", false⟩,
     · exact ⟨⟨"KA", "xr-abc", "a", .xr, false, false, 1, true⟩, by decide, rfl, rfl, rfl, rfl, rfl⟩
     · exact ⟨⟨"KB", "xr-def", "b", .xr, true, false, 0, true⟩, by decide, rfl, rfl, rfl, rfl, rfl⟩
 
+/-- two templates of different kinds; the references are in template order (not sorted); the
+store also holds a bystander controlled by someone else -/
+def settledStorePT : St :=
+  { xrFin := true, xrRv := 5,
+    refs := [⟨"KB", "xr-def"⟩, ⟨"KA", "xr-abc"⟩],
+    objs := [⟨"KA", "xr-abc", "a", .xr, false, false, 1, false⟩, ⟨"KA", "other", "", .other, false, false, 4, false⟩,
+      ⟨"KB", "xr-def", "b", .xr, true, false, 0, false⟩] }
+
+def settledTmplPT : List Desired := [⟨"b", "KB", 0, false⟩, ⟨"a", "KA", 1, true⟩]
+
+example : SettledPT settledStorePT settledTmplPT ["xr-def", "xr-abc"] := by
+  refine ⟨rfl, by decide, rfl, by decide, by decide, by decide, by decide, ?_, rfl⟩
+  intro p hp
+  simp only [settledTmplPT, List.zip_cons_cons, List.zip_nil_right, List.mem_cons, List.mem_nil_iff, or_false] at hp
+  rcases hp with rfl | rfl
+  · exact ⟨⟨"KB", "xr-def", "b", .xr, true, false, 0, false⟩, by decide, rfl, rfl, rfl, rfl, rfl⟩
+  · exact ⟨⟨"KA", "xr-abc", "a", .xr, false, false, 1, false⟩, by decide, rfl, rfl, rfl, rfl, rfl⟩
+
+/-- the version hypothesis is met too, and the generator's proposals are left untouched -/
+example (h : SettledPT settledStorePT settledTmplPT ["xr-def", "xr-abc"]) :
+    run sem Plan.allOk 0 (reconcile (.pt settledTmplPT ["xr-new", "xr-new2"] "v1")) settledStorePT =
+      (settledStorePT, some .success) :=
+  quiescent_pt _ _ _ h _ _ (Or.inr rfl)
 
 /-- an XR with one live composed resource `xr-abc` for name "a", one terminating for "b" -/
 def exampleStore : St :=
